@@ -65,6 +65,31 @@ pub fn gen_world(seed: u64, idx: u64, s: &dyn SuiteOps) -> World {
         threads.push(ops);
     }
     b.interleave(&mut g, threads);
+    // phase 2: the blinded element of every login request is also sent down the
+    // registration path under the same (setup, credential id): both server entry
+    // points must compute the same function of (seed, credential id, request)
+    let r = crate::world::run_world(&b.w);
+    let noe = s.lens().noe;
+    let mut extra = vec![];
+    let mut req_bytes: BTreeMap<Id, Vec<u8>> = BTreeMap::new();
+    for (op, e) in b.w.ops.iter().zip(r.events.iter()) {
+        if let (Op::LoginStart { msg, .. }, Ok(outs)) = (op, &e.res) {
+            if let Some((_, m)) = outs.iter().find(|(n, _)| *n == "msg") {
+                req_bytes.insert(*msg, m.0[..noe.min(m.0.len())].to_vec());
+            }
+        }
+    }
+    for op in b.w.ops.iter() {
+        if let Op::LoginRespond { setup, req: Ref::Item { id, .. }, cred, .. } = op {
+            if let Some(bytes) = req_bytes.get(id) {
+                extra.push((setup.clone(), bytes.clone(), cred.clone()));
+            }
+        }
+    }
+    for (setup, bytes, cred) in extra {
+        let out = b.id();
+        b.push(Op::RegRespond { out, setup, req: Ref::lit(crate::suite::Kind::RegReq, bytes), cred });
+    }
     b.w
 }
 
@@ -125,7 +150,11 @@ pub fn judge(w: &World, r: &RunResult) -> Vec<Violation> {
                 pw_of_state.insert(*st, pw.0.clone());
             }
             Op::RegRespond { out, setup, req, cred } => {
-                if let (Some(m), Some(sd), Some(rq)) = (get("msg"), id(setup).and_then(|x| seed_of.get(&x)), id(req).and_then(|x| bytes.get(&x))) {
+                let lit = match req {
+                    Ref::Lit { bytes, .. } => Some(bytes.0.clone()),
+                    _ => None,
+                };
+                if let (Some(m), Some(sd), Some(rq)) = (get("msg"), id(setup).and_then(|x| seed_of.get(&x)), lit.as_ref().or_else(|| id(req).and_then(|x| bytes.get(&x)))) {
                     evals.push(((sd.clone(), cred.0.clone(), rq[..l.noe].to_vec()), m[..l.noe].to_vec(), i));
                     resp_key.insert(*out, (sd.clone(), cred.0.clone()));
                     if let Some(sb) = id(setup).and_then(|x| seed_bytes.get(&x)) {
